@@ -255,6 +255,7 @@ def run(idx, rep, tier):
                        locs=[idx.loc(hutch.module, l.call)], detail="" if v is not False else "counter")
         # ---------------------------------------------------------- clause 6: probe conjugation
         probe_conjugation(idx, rep, hutch)
+        probe_consistency(idx, rep, hutch)
         # ---------------------------------------------------------- clause 7: the estimator depends on the SIGN of the offset
         kp = next((p for p in hutch.params if p == "k"), hutch.params[1] if len(hutch.params) > 1 else None)
         if kp is not None:
@@ -395,3 +396,97 @@ def probe_conjugation(idx, rep, hutch):
 def fn_role(f):
     r = getattr(f, "rule", None)
     return r.role if r is not None else f.short
+
+
+def probe_consistency(idx, rep, hutch):
+    """The estimator (A @ z) * z2 is unbiased only if z2 is the SAME probe block that A is applied to (shifted / masked for an
+    off-diagonal).  Path-sensitive reaching definitions over the (few) branches of the loop body: on every path the term bound to the
+    multiplier must be, or be computed from, the term bound to the probe at that point -- a transformation applied to one name after the
+    two were bound to one draw (`z = z2 = randn(..); z = sign(z)`) leaves the other behind."""
+    body = None
+    for fi in hutch.nested.values():
+        if any(df.is_xnp_call(c) == "randn" for c in df.calls(fi.node)):
+            body = fi
+    if body is None:
+        rep.undecided("probe-consistency", hutch.short, "probe draw not found in a nested body")
+        return
+    est = None
+    for n in df.body_nodes(body.node):
+        if isinstance(n, ast.BinOp) and isinstance(n.op, ast.Mult):
+            for prod, other in ((n.left, n.right), (n.right, n.left)):
+                if isinstance(prod, ast.BinOp) and isinstance(prod.op, ast.MatMult) and isinstance(prod.right, ast.Name) and isinstance(other, ast.Name):
+                    est = (n, prod.right.id, other.id)
+    if est is None:
+        rep.undecided("probe-consistency", hutch.short, "estimator of the form (A @ z) * z2 not found")
+        return
+    node, zname, mname = est
+    stmts = body.node.body
+    ifs = []
+
+    def collect(blk):
+        for st in blk:
+            if isinstance(st, ast.If):
+                ifs.append(st)
+                collect(st.body)
+                collect(st.orelse)
+    collect(stmts)
+    if len(ifs) > 8:
+        rep.undecided("probe-consistency", hutch.short, f"{len(ifs)} branches in the loop body: too many paths")
+        return
+    import itertools
+    fresh = [0]
+
+    def term(e, env):
+        """syntactic term of e with names replaced by their current terms; calls of randn are distinct draws"""
+        if isinstance(e, ast.Name):
+            return env.get(e.id, ("name", e.id))
+        if isinstance(e, ast.Constant):
+            return ("const", repr(e.value))
+        if isinstance(e, ast.Call) and df.is_xnp_call(e) == "randn":
+            fresh[0] += 1
+            return ("draw", fresh[0])
+        return (type(e).__name__, ) + tuple(term(c, env) for c in ast.iter_child_nodes(e) if isinstance(c, ast.expr)) + (
+            (e.attr, ) if isinstance(e, ast.Attribute) else ()) + ((type(e.op).__name__, ) if isinstance(e, (ast.BinOp, ast.UnaryOp)) else ())
+
+    def contains(t, sub):
+        return t == sub or (isinstance(t, tuple) and any(contains(x, sub) for x in t[1:] if isinstance(x, tuple)))
+
+    bad = None
+    n_paths = 0
+    for choice in itertools.product([True, False], repeat=len(ifs)):
+        taken = dict(zip([id(i) for i in ifs], choice))
+        env = {}
+        found = [None]
+
+        def run(blk):
+            for st in blk:
+                if isinstance(st, ast.If):
+                    run(st.body if taken[id(st)] else st.orelse)
+                elif isinstance(st, ast.Assign):
+                    v = term(st.value, env)
+                    for t in st.targets:
+                        if isinstance(t, ast.Name):
+                            env[t.id] = v
+                        elif isinstance(t, ast.Tuple):
+                            for i_, e_ in enumerate(t.elts):
+                                if isinstance(e_, ast.Name):
+                                    env[e_.id] = ("item", v, ("const", str(i_)))
+                elif isinstance(st, ast.AugAssign) and isinstance(st.target, ast.Name):
+                    env[st.target.id] = ("aug", env.get(st.target.id, ("name", st.target.id)), term(st.value, env))
+                if found[0] is None and any(x is node for x in ast.walk(st)):
+                    found[0] = (env.get(zname, ("name", zname)), env.get(mname, ("name", mname)))
+        fresh[0] = 0
+        run(stmts)
+        if found[0] is None:
+            continue
+        n_paths += 1
+        zt, mt = found[0]
+        if not contains(mt, zt):
+            conds = [("" if c else "not ") + ast.unparse(i.test)[:30] for i, c in zip(ifs, choice) if any(x.id in (zname, mname) for s_ in i.body + i.orelse for x in ast.walk(s_)
+                                                                                                       if isinstance(x, ast.Name) and isinstance(x.ctx, ast.Store))]
+            bad = bad or f"on the path [{', '.join(conds) or 'straight'}] the multiplier `{mname}` is not (computed from) the probe block `{zname}` that the operator is applied to"
+    if n_paths == 0:
+        rep.undecided("probe-consistency", hutch.short, "the estimator is not reached on any enumerated path")
+    else:
+        rep.decide(bad is None, "probe-consistency", hutch.short, bad or f"on all {n_paths} paths of the loop body the multiplier is the probe block itself or a shift / mask of it",
+                   detail="" if bad is None else "stale-probe", locs=[idx.loc(body.module, node)])
